@@ -46,6 +46,12 @@ var commonAssumptions = []string{
 
 func init() {
 	register(&Def{
+		ID: "C05", Level: "exploration", MinSigs: 40,
+		Rule:        "PRNG-drawn successful transfers over all three routes with every attribute varied (CCTP: domain, mint recipient, with/without caller; Hyperlane: token, domain, recipient, custom hook none/noop/merkle, gas limit, max fee denom/amount, metadata; internal: recipient) x fee lists, executed (a) on an alternative keeper over the same stores whose bridge dependencies are wrapped by recorders: exactly one bridge call, of the route named by the protocol id, every request field equal to the payload field / post-action coin / orbiter address; (b) on the native wiring: the bridges' own typed events (DepositForBurn, EventSendRemoteTransfer, bank credit) must carry the same values. Complete matrix of (protocol id incl. numeric and out-of-range) x (attribute type) and action ids without controller: only matching pairs are executed. ReplaceDepositForBurn: recorded CCTP request = message fields with From = orbiter (random and real messages); a real deposit replaced with a harness-signed attestation succeeds on both wirings and CCTP's event carries the new values. distinct = (bridge site, route template, fee class) and matrix cells",
+		Assumptions: append([]string{"the alternative keeper duplicates the wiring of depinject.go (60 lines); the gap is closed by running every successful case on the native wiring too and requiring the same outcome"}, commonAssumptions...),
+		Run:         withLab(world.Config{}, CheckC05),
+	})
+	register(&Def{
 		ID: "C17", Level: "exploration", MinSigs: 30,
 		Rule:        "at checkpoints of mixed histories (transfers over 4 channels, pauses of protocols/cross-chains/actions, parameter updates): ExportGenesis -> ValidateGenesis -> wipe the orbiter store on a branch -> InitGenesis (recover()) -> ExportGenesis must reproduce the same document and the same raw store (indexes included), and a fixed probe set (every calibrated destination, with/without fee, passthrough at limit+-1) must give identical acknowledgements, ledger and statistics deltas on the original and the re-imported state; for some checkpoints additionally a fresh chain is initialised by InitChain with the exported genesis and compared the same way. Generated documents = every single-point mutation of an exported genesis (delete, null, repeated/reversed/appended list elements, boundary and hostile identifiers, NUL/separator characters, integer extremes): accepted by ValidateGenesis => InitGenesis succeeds. distinct = checkpoint shapes and (mutation class, outcome)",
 		Assumptions: commonAssumptions,
